@@ -4,9 +4,9 @@
 From Coq Require Import Extraction ExtrOcamlBasic.
 From Coq Require Import ZArith QArith List.
 From Coq Require Import Qcanon.
-From PV Require Import Base.QUtil Base.Round Model.EventLib Model.Seq Model.Dedup Model.Labels Model.LabelEval.
+From PV Require Import Base.QUtil Base.Round Model.EventLib Model.Seq Model.Dedup Model.Labels Model.LabelEval Model.ExtFile.
 Extraction Language OCaml.
 Extraction "../ocaml/labels/model.ml"
   Qred Q2Qc round_spec core_init step decode seq_step
   evaluate_labels eval_store store_lblocks ext_walk ext_list ext_payload interp interp_seq one_op_per_label
-  dec_ext labels_of_ext trigs_of_ext.
+  dec_ext labels_of_ext trigs_of_ext reread_ext write_ext read_ext.
